@@ -154,7 +154,7 @@ def build(e, cfg, d='/ds'):
         pos = []
         for pi, cp_ in enumerate(merged):
             for c in range(cp_):
-                pos.append([100.0 * pi + 10.0 * (c % 2), 20.0 * c])
+                pos.append([cfg.get('probe_dx', 100.0) * pi + 10.0 * (c % 2), 20.0 * c])
     else:
         if sym and 'channels' in groups:
             cm = [e.int('cm%d' % c, 0, ncd - 1) for c in range(nc)]
@@ -324,7 +324,7 @@ class RealDS(object):
         save('channel_map', vec(np.array(case['cm'], dtype=cfg.get('map_dtype', 'int32'))))
         merged = cfg.get('merged')
         if merged:
-            pos = np.array([[100.0 * pi + 10.0 * (c % 2), 20.0 * c] for pi, cp_ in enumerate(merged) for c in range(cp_)])
+            pos = np.array([[cfg.get('probe_dx', 100.0) * pi + 10.0 * (c % 2), 20.0 * c] for pi, cp_ in enumerate(merged) for c in range(cp_)])
             prb = np.array([pi for pi, cp_ in enumerate(merged) for c in range(cp_)], dtype=cfg.get('probe_dtype', 'int32'))
         else:
             pos = np.array(cfg.get('positions') or [[10.0 * (c % 2), 20.0 * c] for c in range(nc)])
